@@ -58,11 +58,19 @@ def c07_a(ctx: Ctx):
         else:
             out.append(ctx.inc(R, pf, pf.node, "membership test not recognised", construct=k))
     cn = ctx.fn(CUR + ".__contains__")
+    has_set = (CUR + "._id_set") in ctx.prog.funcs
     for f, with_f, without in ((ln, "len(self._ids)", "len(self._project)"), (cn, None, None)):
+        # attributes / locals of this function that hold a collection built from self._ids only (the cached membership set)
+        derived = {"self._ids"} | ({"self._id_set"} if has_set else set())
+        for a in body_nodes(f):
+            if isinstance(a, ast.Assign) and len(a.targets) == 1 and isinstance(a.targets[0], (ast.Name, ast.Attribute)):
+                vt = canon(a.value)
+                if "self._ids" in vt and "self._project" not in vt and isinstance(a.value, ast.Call) and dotted(a.value.func) in ("set", "frozenset", "list", "tuple"):
+                    derived.add(canon(a.targets[0]))
         for r in [n for n in body_nodes(f) if isinstance(n, ast.Return) and n.value is not None]:
             facts = common.facts_at(ctx, f, r, "n")
             t = canon(r.value)
-            uses_ids = "self._ids" in t or "self._id_set" in t
+            uses_ids = any(d in t for d in derived)
             uses_proj = "self._project" in t
             if ("self._filter", True) in facts:
                 if uses_ids and not uses_proj:
@@ -93,11 +101,16 @@ def c07_a(ctx: Ctx):
             out.append(ctx.viol(R, ids, calls[0], "ids are recomputed on every access: len / iteration may see different results"))
     else:
         out.append(ctx.viol(R, ids, ids.node, "the id list is not _find_job_ids(self._filter)"))
-    st = ctx.fn(CUR + "._id_set")
+    # the membership set: the _id_set property, or (when it was folded into its only user) the set built in __contains__
+    st = ctx.fn(CUR + "._id_set") if has_set else cn
     if any(isinstance(c, ast.Call) and canon(c) == "set(self._ids)" for c in body_nodes(st)):
         out.append(ctx.ok(R, st, st.node, "the id set is set(self._ids)"))
-    else:
+    elif has_set:
         out.append(ctx.viol(R, st, st.node, "the membership set is not built from self._ids"))
+    elif any(isinstance(r, ast.Return) and "self._ids" in canon(r.value) for r in body_nodes(cn) if isinstance(r, ast.Return) and r.value is not None):
+        out.append(ctx.ok(R, cn, cn.node, "membership is answered from self._ids directly"))
+    else:
+        out.append(ctx.viol(R, cn, cn.node, "there is no membership set built from self._ids (neither an _id_set property nor a set in __contains__)"))
     return out
 
 
